@@ -273,6 +273,13 @@ class Program:
             from .inline import Inliner, load_reference, normalise_result_temps, normalise_branch_results, normalise_parameter_temps, normalise_singleton_generators, normalise_optional_flags, record_classes_of, normalise_record_reads, normalise_record_fields, normalise_record_objects, normalise_attribute_loops, normalise_class_constants, normalise_enum_values, normalise_local_tables, normalise_record_classes, normalise_compiled_patterns, normalise_literal_loops, normalise_module_constants, normalise_small_quantifiers
             ref = load_reference()
             self._record_tables: dict[str, dict] = {}
+            all_records: dict = {}
+            if ref is not None:
+                # the record classes the reviewed tree did not have, wherever in the package they are defined (a record made in one module may be
+                # read in another that imports it)
+                for m in self.modules.values():
+                    self._record_tables[m.name] = record_classes_of(m.tree, m.name, ref)
+                    all_records.update(self._record_tables[m.name])
             if ref is not None:
                 for m in self.modules.values():
                     self._count('normalise_module_constants', normalise_module_constants(m.tree, m.name, [fi.node for fi in self.functions.values() if fi.module is m and fi.parent is None], ref))
@@ -285,9 +292,8 @@ class Program:
                         # the methods became nested functions of the functions that used the object: index them
                         for fi in [f for f in self.functions.values() if f.module is m and f.parent is None]:
                             self._add_nested(m, fi)
-                    self._record_tables[m.name] = record_classes_of(m.tree, m.name, ref)
-                    self._count('normalise_record_reads', normalise_record_reads(m.tree, self._record_tables[m.name]))
-                    self._count('normalise_record_classes', normalise_record_classes(m.tree, m.name, [fi.node for fi in self.functions.values() if fi.module is m and fi.parent is None], ref))
+                    self._count('normalise_record_reads', normalise_record_reads(m.tree, all_records))
+                    self._count('normalise_record_classes', normalise_record_classes(m.tree, m.name, [fi.node for fi in self.functions.values() if fi.module is m and fi.parent is None], ref, all_records))
             for fi in self.functions.values():
                 if fi.parent is None:
                     self._count('normalise_small_quantifiers', normalise_small_quantifiers(fi.node))
